@@ -393,7 +393,24 @@ func (in *Interp) blockPure(b *ssa.BasicBlock) bool {
 				}
 			}
 		case *ssa.UnOp:
-			if ins.Op == token.MUL || ins.Op == token.ARROW {
+			if ins.Op == token.ARROW {
+				pure = false
+			}
+			if ins.Op == token.MUL {
+				// loads are executed speculatively (a nil dereference aborts the merge, see tryMerge)
+				if _, ok := scalarTyp(ins.Type()); !ok {
+					if _, isSlice := ins.Type().Underlying().(*types.Slice); !isSlice {
+						if _, isPtr := ins.Type().Underlying().(*types.Pointer); !isPtr {
+							pure = false
+						}
+					}
+				}
+			}
+		case *ssa.FieldAddr, *ssa.IndexAddr, *ssa.Index:
+			// address computations and loads: speculative, any panic or symbolic decision aborts the merge
+		case *ssa.Store:
+			// scalar stores are logged and committed as ite(cond, new, old)
+			if _, ok := scalarTyp(ins.Val.Type()); !ok {
 				pure = false
 			}
 		case *ssa.Convert:
@@ -440,13 +457,29 @@ func (in *Interp) tryMerge(fr *frame, blk *ssa.BasicBlock, cond *Term) bool {
 		return false
 	}
 	// the join must not have other phis-incompatible structure: evaluate speculatively
-	run := func(b *ssa.BasicBlock) bool {
+	// Speculative execution of a side block: stores to scalar cells are applied, logged and undone
+	// afterwards; any panic, abort or need for a solver decision cancels the merge (fall back to forking).
+	run := func(b *ssa.BasicBlock) (map[*Value]Value, bool) {
 		if b == nil {
-			return true
+			return nil, true
 		}
 		ok := true
+		sp := &specState{seen: map[*Value]bool{}}
+		saved := in.spec
+		in.spec = sp
+		var finals map[*Value]Value
 		func() {
 			defer func() {
+				in.spec = saved
+				if len(sp.log) > 0 {
+					finals = map[*Value]Value{}
+					for _, w := range sp.log {
+						finals[w.cell] = *w.cell
+					}
+					for i := len(sp.log) - 1; i >= 0; i-- {
+						*sp.log[i].cell = sp.log[i].old
+					}
+				}
 				if r := recover(); r != nil {
 					if _, isAbort := r.(pathAbort); isAbort {
 						ok = false
@@ -463,10 +496,49 @@ func (in *Interp) tryMerge(fr *frame, blk *ssa.BasicBlock, cond *Term) bool {
 				in.visitInstr(fr, ins)
 			}
 		}()
-		return ok
+		in.curFr = fr
+		return finals, ok
 	}
-	if !run(tBlk) || !run(fBlk) {
+	tW, okT := run(tBlk)
+	if !okT {
 		return false
+	}
+	fW, okF := run(fBlk)
+	if !okF {
+		return false
+	}
+	// merged stores must be scalar on both sides
+	type mw struct {
+		cell *Value
+		v    *Term
+	}
+	var merged []mw
+	for cell, tv := range tW {
+		old, ok1 := (*cell).(*Term)
+		nt, ok2 := tv.(*Term)
+		if !ok1 || !ok2 || old.T != nt.T {
+			return false
+		}
+		fv := old
+		if x, ok := fW[cell]; ok {
+			ft, ok3 := x.(*Term)
+			if !ok3 || ft.T != old.T {
+				return false
+			}
+			fv = ft
+		}
+		merged = append(merged, mw{cell, in.tb.Ite(cond, nt, fv)})
+	}
+	for cell, x := range fW {
+		if _, done := tW[cell]; done {
+			continue
+		}
+		old, ok1 := (*cell).(*Term)
+		ft, ok2 := x.(*Term)
+		if !ok1 || !ok2 || old.T != ft.T {
+			return false
+		}
+		merged = append(merged, mw{cell, in.tb.Ite(cond, old, ft)})
 	}
 	tPred, fPred := blk, blk
 	if tBlk != nil {
@@ -505,6 +577,9 @@ func (in *Interp) tryMerge(fr *frame, blk *ssa.BasicBlock, cond *Term) bool {
 	// commit: enter the join with the merged phi values (runFrame skips its phi prefix)
 	for i, p := range phis {
 		fr.env[p] = vals[i]
+	}
+	for _, w := range merged {
+		*w.cell = w.v
 	}
 	in.ex.merges++
 	fr.prevBlock, fr.block = tPred, join
@@ -891,3 +966,14 @@ func (in *Interp) selectOp(fr *frame, instr *ssa.Select) Value {
 }
 
 var _ = utf8.RuneError
+
+// specState: active while a side block of a mergeable branch is executed speculatively.
+type specState struct {
+	log  []specWrite
+	seen map[*Value]bool
+}
+
+type specWrite struct {
+	cell *Value
+	old  Value
+}
